@@ -29,7 +29,7 @@ def configs(tier, seed):
         for rot in range(2):
             fdims = [c02.DIMSETS[(rot * 4 + 2 * j + len(fs)) % len(c02.DIMSETS)] for j in range(len(fs))]
             for sc in ([], ["p1"], [None], ["p1", None]):
-                for form in ("numpy", "pandas", "csv"):
+                for form in ("numpy", "pandas", "csv") + (("pickle",) if rot == 0 else ()):
                     key = f"export/{form}/" + "+".join(f"{a}>{b}:{d or '-'}" for (a, b), d in zip(fs, fdims)) + "/stocks=" + ",".join(str(s) for s in sc)
                     out.append(dict(h="export", op=form, key=key, procs=procs, flows=[list(p) for p in fs], fdims=fdims, stocks=sc, form=form))
                     if form == "csv" and rot == 0 and i % 3 == 0:
@@ -128,8 +128,63 @@ def run(cfg, w):
         if V.size > 4:
             w.assume_distinct(V)
     form = cfg["form"]
+    if form == "pickle":
+        # the pickle bytes are outside the claim; what is handed to pickle.dump, and how the file is opened, is inside:
+        # `pickle` and `open` as seen by flodym.export.data_writer are recorders
+        import flodym.export.data_writer as dwm
+
+        opened, dumped = [], []
+
+        class _File:
+            def __init__(self, path, mode):
+                self.path, self.mode, self.closed = path, mode, False
+
+            def __enter__(self):
+                return self
+
+            def __exit__(self, *a):
+                self.closed = True
+                return False
+
+            def close(self):
+                self.closed = True
+
+            def write(self, b):
+                return len(b)
+
+        class _Pickle:
+            HIGHEST_PROTOCOL = 5
+
+            @staticmethod
+            def dump(obj, f, *a, **k):
+                dumped.append((obj, f))
+
+        def _open(path, mode="r", *a, **k):
+            f = _File(path, mode)
+            opened.append(f)
+            return f
+
+        old_pickle, had_open = dwm.pickle, dwm.__dict__.get("open", None)
+        dwm.pickle, dwm.open = _Pickle, _open
+        try:
+            dwm.export_mfa_to_pickle(mfa, "/nonexistent/results/mfa.pickle")
+            dwm.export_mfa_to_pickle(mfa, "/nonexistent/results/mfa.pickle")  # a second export to the same path replaces the first
+        finally:
+            dwm.pickle = old_pickle
+            if had_open is None:
+                del dwm.open
+            else:
+                dwm.open = had_open
+        w.ob("one_file_per_export_at_the_given_path", len(opened) == 2 and all(f.path == "/nonexistent/results/mfa.pickle" for f in opened), info=str([(f.path, f.mode) for f in opened]))
+        w.ob("file_is_written_from_scratch_in_binary_mode", all(f.mode in ("wb", "bw", "xb", "bx", "w+b", "wb+") for f in opened), info=str([f.mode for f in opened]))
+        w.ob("one_dump_per_export_into_that_file", len(dumped) == 2 and all(any(df is f for f in opened) for _o, df in dumped))
+        out = dumped[-1][0] if dumped else {}
+        form = "numpy"  # the dumped object must be the numpy-form dictionary: checked below like convert_to_dict's result
+        w.ob("dumped_object_is_a_dict", isinstance(out, dict))
+        if not isinstance(out, dict):
+            return
     if form in ("numpy", "pandas"):
-        out = convert_to_dict(mfa, form)
+        out = convert_to_dict(mfa, form) if cfg["form"] != "pickle" else out
         w.ob("keys", set(out) == {"dimension_names", "dimension_items", "processes", "flows", "flow_dimensions", "flow_processes", "stocks", "stock_dimensions", "stock_processes"})
         w.ob("dimension_names", out["dimension_names"] == {"t": "Time", "a": "Alpha", "b": "Beta"})
         w.ob("dimension_items", out["dimension_items"] == {n: [f"{l}{i + 1}" for i in range(c02.LENS[l])] for l, n in zip("tab", ["Time", "Alpha", "Beta"])})
